@@ -51,6 +51,7 @@ inductive Site where
   | wrapperLate  -- a function wrapper entered by native code the evaluation has started and which calls back later
                  -- (a timer, a handler): the same site as `wrapper`; the correspondence harness holds such a call
                  -- back, when it is in flight at the cancellation, until everything else has settled
+  | closureLate  -- the same for a closure handed to such native code (the site of `closure`)
   deriving DecidableEq, Repr, Inhabited
 
 structure BlockFact where
@@ -128,11 +129,11 @@ def RunIdFacts.blk (F : RunIdFacts) : BlkKind → BlockFact
 
 def RunIdFacts.site (F : RunIdFacts) : Site → IdSrc
   | .call => F.callId | .wrapper => F.wrapperId | .closure => F.closureId | .earlier => F.closureId
-  | .wrapperLate => F.wrapperId
+  | .wrapperLate => F.wrapperId | .closureLate => F.closureId
 
 def RunIdFacts.siteDone (F : RunIdFacts) : Site → DoneSrc
   | .call => .inherit | .wrapper => F.wrapperDone | .closure => F.closureDone | .earlier => F.closureDone
-  | .wrapperLate => F.wrapperDone
+  | .wrapperLate => F.wrapperDone | .closureLate => F.closureDone
 
 /-- the id a new frame gets -/
 def newId (s : IdSrc) (parent cur root : Nat) : Nat :=
